@@ -32,12 +32,17 @@ fn jstr(s: &str) -> String {
 }
 
 // first failing input per (routine, case); the driver ignores cases listed as known findings
-pub struct Hits { seen: Vec<String>, pub n: usize }
+pub struct Hits { seen: Vec<String>, per_case: Vec<(String, usize)>, pub n: usize }
 impl Hits {
-    pub fn new() -> Self { Hits { seen: vec![], n: 0 } }
+    pub fn new() -> Self { Hits { seen: vec![], per_case: vec![], n: 0 } }
+    // reports every distinct (case, input), at most 25 per case
     pub fn hit(&mut self, routine: &str, case: &str, func: &str, input: &str, observed: &str) {
-        let key = format!("{}/{}", routine, case);
+        let key = format!("{}/{}/{}", routine, case, input);
         if self.seen.contains(&key) { return; }
+        let ck = format!("{}/{}", routine, case);
+        let mut found = false;
+        for pc in self.per_case.iter_mut() { if pc.0 == ck { found = true; if pc.1 >= 25 { return; } pc.1 += 1; } }
+        if !found { self.per_case.push((ck, 1)); }
         self.seen.push(key);
         self.n += 1;
         report(routine, case, func, input, observed);
@@ -119,7 +124,7 @@ mod b64 {
         for x in &inputs {
             if let Some(o) = check_encode(x) { h.hit("base64", "encode", "Base64::encode", &hex(x), &o); }
             if let Some(o) = check_roundtrip(x) { h.hit("base64", "roundtrip", "Base64::decode", &hex(x), &o); }
-            if h.n >= 2 { break; }
+            if h.n >= 6 { break; }
         }
         // foreign characters: every position of valid texts, padding-only groups, non-ASCII
         let foreign = ['!', '-', '_', ' ', '\n', '\u{0}', '\u{7f}', 'é', 'Ł', '\u{1F600}', '.', '*'];
@@ -388,6 +393,240 @@ mod cors {
     }
 }
 
+// ---------------------------------------------------------------- end-to-end through Server::process (C04, C05, C09, C10, C01, C02)
+mod e2e {
+    use super::*;
+    use crate::app::App;
+    use crate::core::New;
+    use crate::server::{Address, ConnectionInfo, Server};
+    use std::io::{Read, Write};
+
+    pub struct Mock { pub input: Vec<u8>, pub pos: usize, pub out: Vec<u8>, pub chunk: usize, pub flush_fails: bool }
+    impl Read for Mock {
+        fn read(&mut self, buf: &mut [u8]) -> std::io::Result<usize> {
+            let n = std::cmp::min(self.input.len() - self.pos, buf.len());
+            buf[..n].copy_from_slice(&self.input[self.pos..self.pos + n]);
+            self.pos += n;
+            Ok(n)
+        }
+    }
+    impl Write for Mock {
+        fn write(&mut self, buf: &[u8]) -> std::io::Result<usize> {
+            let n = if self.chunk == 0 { buf.len() } else { std::cmp::min(self.chunk, buf.len()) };
+            self.out.extend_from_slice(&buf[..n]);
+            Ok(n)
+        }
+        fn flush(&mut self) -> std::io::Result<()> {
+            if self.flush_fails { Err(std::io::Error::new(std::io::ErrorKind::ConnectionReset, "reset")) } else { Ok(()) }
+        }
+    }
+
+    pub struct Parsed { pub status: u16, pub reason: String, pub headers: Vec<(String, String)>, pub body: Vec<u8>, pub head_ok: bool }
+    pub fn parse(out: &[u8]) -> Option<Parsed> {
+        let pos = out.windows(4).position(|w| w == b"\r\n\r\n")?;
+        let head = std::str::from_utf8(&out[..pos]).ok()?;
+        let mut lines = head.split("\r\n");
+        let sl = lines.next()?;
+        let mut it = sl.splitn(3, ' ');
+        let _v = it.next()?;
+        let status = it.next()?.parse::<u16>().ok()?;
+        let reason = it.next().unwrap_or("").to_string();
+        let mut headers = vec![];
+        let mut head_ok = true;
+        for l in lines {
+            match l.split_once(": ") { Some((n, v)) => headers.push((n.to_string(), v.to_string())), None => head_ok = false }
+            if l.contains('\r') || l.contains('\n') { head_ok = false; }
+        }
+        Some(Parsed { status, reason, headers, body: out[pos + 4..].to_vec(), head_ok })
+    }
+
+    pub fn root() -> std::path::PathBuf { std::path::PathBuf::from(env!("CARGO_MANIFEST_DIR")).join("docroot") }
+    pub fn setup() {
+        let r = root();
+        let www = r.join("www");
+        let _ = std::fs::remove_dir_all(&r);
+        std::fs::create_dir_all(www.join("dir")).unwrap();
+        std::fs::create_dir_all(www.join("empty")).unwrap();
+        std::fs::write(r.join("secret.txt"), b"TOPSECRET-OUTSIDE-ROOT").unwrap();
+        std::fs::write(www.join("index.html"), b"<html>index</html>").unwrap();
+        std::fs::write(www.join("a.txt"), (0..100u8).map(|i| b'a' + (i % 26)).collect::<Vec<u8>>()).unwrap();
+        std::fs::write(www.join("page.html"), b"<html>page</html>").unwrap();
+        std::fs::write(www.join("dir").join("index.html"), b"<html>dir index</html>").unwrap();
+        std::fs::write(www.join("bin.dat"), (0..20000u32).map(|i| (i * 7 % 256) as u8).collect::<Vec<u8>>()).unwrap();
+        std::env::set_current_dir(&www).unwrap();
+    }
+    pub fn corpus() -> Vec<(String, Vec<u8>)> {
+        let mut v: Vec<(String, Vec<u8>)> = vec![];
+        let mut add = |n: &str, r: String| v.push((n.to_string(), r.into_bytes()));
+        for m in ["GET", "HEAD", "OPTIONS", "POST", "DELETE"] {
+            for t in ["/", "/a.txt", "/page", "/dir", "/dir/", "/missing", "/empty", "/a.txt?x=1#f", "/script.js", "/favicon.svg"] {
+                add(&format!("{} {}", m, t), format!("{} {} HTTP/1.1\r\nHost: localhost\r\n\r\n", m, t));
+                add(&format!("{} {} origin", m, t), format!("{} {} HTTP/1.1\r\nHost: localhost\r\nOrigin: https://foo.example\r\nAccess-Control-Request-Method: PUT\r\nAccess-Control-Request-Headers: X-A\r\n\r\n", m, t));
+            }
+        }
+        for r in ["bytes=0-3", "bytes=5-", "bytes=-5", "bytes=0-0,2-3", "bytes=200-300", "bytes=x-y", "bytes", "bytes=3-1", "bytes=0-99", "bytes=0-8191", "bytes=-999999"] {
+            add(&format!("range {}", r), format!("GET /a.txt HTTP/1.1\r\nHost: localhost\r\nRange: {}\r\n\r\n", r));
+            add(&format!("range bin {}", r), format!("GET /bin.dat HTTP/1.1\r\nRange: {}\r\n\r\n", r));
+        }
+        for t in ["/../secret.txt", "/dir/../../secret.txt", "/%2e%2e/secret.txt", "/..%2Fsecret.txt", "../secret.txt", "/....//secret.txt", "/..././secret.txt", "//../secret.txt", "/dir/..", "x", ".."] {
+            add(&format!("traversal {}", t), format!("GET {} HTTP/1.1\r\nHost: localhost\r\n\r\n", t));
+        }
+        for raw in ["", "\r\n", "GET", "GET /", "GET / HTTP/9.9\r\n\r\n", "BREW / HTTP/1.1\r\n\r\n", "GET  /  HTTP/1.1\r\n\r\n", "get / http/1.1\r\n\r\n",
+                    "GET / HTTP/1.1\r\nContent-Length: abc\r\n\r\n", "GET / HTTP/1.1\r\nNoColonHere\r\n\r\n", "POST /form-url-encoded-enctype-post-method HTTP/1.1\r\nContent-Length: 3\r\n\r\na=b",
+                    "GET / HTTP/1.1\r\nOrigin: https://a.example\rSet-Cookie:x=1\r\n\r\n", "GET / HTTP/1.1\r\nRange: bytes=0-1\r\nX: \u{7f}\r\n\r\n"] {
+            add(&format!("raw {:?}", raw), raw.to_string());
+        }
+        v.push(("non-utf8".into(), vec![0xff, 0xfe, b'G', b'E', b'T', b' ', b'/', b'\r', b'\n']));
+        v.push(("zeros".into(), vec![0u8; 64]));
+        let mut many = b"GET / HTTP/1.1\r\n".to_vec();
+        for i in 0..300 { many.extend(format!("X-H{}: v\r\n", i).as_bytes()); }
+        many.extend(b"\r\n");
+        v.push(("300 headers".into(), many));
+        v
+    }
+    pub fn run(raw: &[u8], chunk: usize, flush_fails: bool) -> Result<Vec<u8>, String> {
+        let mut m = Mock { input: raw.to_vec(), pos: 0, out: vec![], chunk, flush_fails };
+        let conn = ConnectionInfo { client: Address { ip: "127.0.0.1".into(), port: 4000 }, server: Address { ip: "127.0.0.1".into(), port: 7878 }, request_size: 16000 };
+        let r = panic::catch_unwind(panic::AssertUnwindSafe(|| { let _ = Server::process(&mut m, conn, App::new()); }));
+        match r { Ok(()) => Ok(m.out), Err(_) => Err("panic".into()) }
+    }
+    fn count<'a>(p: &'a Parsed, n: &str) -> Vec<&'a String> { p.headers.iter().filter(|(k, _)| k.eq_ignore_ascii_case(n)).map(|(_, v)| v).collect() }
+
+    // every response-level clause that should hold for any request; returns (case, observation)
+    pub fn check(name: &str, raw: &[u8]) -> Vec<(String, String)> {
+        let mut bad = vec![];
+        let out = match run(raw, 0, false) { Ok(o) => o, Err(e) => { bad.push(("c04_panic".to_string(), e)); return bad; } };
+        if out.is_empty() { bad.push(("c04_no_response".into(), "nothing written".into())); return bad; }
+        let p = match parse(&out) { Some(p) => p, None => { bad.push(("c05_unparseable".into(), format!("{:?}", String::from_utf8_lossy(&out[..out.len().min(200)])))); return bad; } };
+        if !p.head_ok { bad.push(("c05_header_line".into(), format!("malformed header line in {:?}", p.headers))); }
+        // C10
+        for (n, want) in [("X-Content-Type-Options", Some("nosniff")), ("X-Frame-Options", Some("SAMEORIGIN")), ("Accept-Ranges", Some("bytes")),
+                          ("Cache-Control", Some("no-store, no-cache, private, max-age=0, must-revalidate, proxy-revalidate")), ("Accept-CH", None), ("Vary", None)] {
+            let vs = count(&p, n);
+            if vs.len() != 1 { bad.push(("c10_once".into(), format!("{} occurs {} times", n, vs.len()))); continue; }
+            if let Some(w) = want { if vs[0] != w { bad.push(("c10_value".into(), format!("{}: {}", n, vs[0]))); } }
+            if n == "Vary" && !vs[0].split(',').any(|x| x.trim() == "Origin") { bad.push(("c10_value".into(), format!("Vary: {}", vs[0]))); }
+        }
+        // C05
+        let cl = count(&p, "Content-Length");
+        if cl.len() > 1 || count(&p, "Content-Type").len() > 1 || count(&p, "Content-Range").len() > 1 { bad.push(("c05_dup_framing".into(), format!("{:?}", p.headers))); }
+        let method = std::str::from_utf8(raw).ok().and_then(|s| s.split(' ').next().map(|x| x.to_string())).unwrap_or_default();
+        let bodiless = method == "HEAD" || method == "OPTIONS";
+        if bodiless && !p.body.is_empty() { bad.push(("c05_body_on_head".into(), format!("{} body bytes", p.body.len()))); }
+        if !bodiless { if let Some(v) = cl.get(0) { if v.parse::<usize>().ok() != Some(p.body.len()) { bad.push(("c05_content_length".into(), format!("Content-Length {} but {} body bytes", v, p.body.len()))); } } }
+        let known = [(200, "OK"), (204, "No Content"), (206, "Partial Content"), (400, "Bad Request"), (404, "Not Found"), (416, "Range Not Satisfiable"), (500, "Internal Server Error"), (501, "Not Implemented")];
+        if !known.iter().any(|(c, r)| *c == p.status && *r == p.reason) { bad.push(("c05_status_line".into(), format!("{} {}", p.status, p.reason))); }
+        // delivery under short writes
+        match run(raw, 1, false) { Ok(o1) => { if o1.len() != out.len() { bad.push(("c05_short_write".into(), format!("{} of {} bytes delivered with 1-byte writes", o1.len(), out.len()))); } }
+                                   Err(e) => bad.push(("c04_panic".into(), e)) }
+        if let Err(e) = run(raw, 0, true) { bad.push(("c04_panic_flush".into(), e)); }
+        // C01
+        if out.windows(9).any(|w| w == b"TOPSECRET") { bad.push(("c01_outside_root".into(), format!("{}: response carries the file outside the served directory", name))); }
+        bad
+    }
+    pub fn search(_seed: u64) -> bool {
+        setup();
+        let mut h = Hits::new();
+        for (i, (name, raw)) in corpus().iter().enumerate() {
+            for (case, o) in check(name, raw) { h.hit("e2e", &case, "Server::process", &i.to_string(), &format!("{} :: {}", name, o)); }
+        }
+        h.n > 0
+    }
+    pub fn replay(case: &str, input: &str) -> bool {
+        setup();
+        let c = corpus();
+        let (name, raw) = &c[input.parse::<usize>().unwrap()];
+        let mut found = false;
+        for (k, o) in check(name, raw) { if k == case { report("e2e", &k, "", input, &format!("{} :: {}", name, o)); found = true; } }
+        found
+    }
+}
+
+// ---------------------------------------------------------------- request parsing / serialising (C14)
+mod req {
+    use super::*;
+    use crate::header::Header;
+    use crate::request::Request;
+
+    const METHODS: [&str; 9] = ["GET", "HEAD", "POST", "PUT", "DELETE", "CONNECT", "OPTIONS", "TRACE", "PATCH"];
+    const VERSIONS: [&str; 4] = ["HTTP/0.9", "HTTP/1.0", "HTTP/1.1", "HTTP/2.0"];
+
+    fn line_ok(line: &str) -> Option<(String, String, String)> {
+        let t = line.trim();
+        let (m, r) = t.split_once(' ')?;
+        let (u, v) = r.split_once(' ')?;
+        if METHODS.contains(&m.to_uppercase().as_str()) && VERSIONS.contains(&v.to_uppercase().as_str()) { Some((m.into(), u.into(), v.into())) } else { None }
+    }
+    pub fn check_line(line: &str) -> Option<String> {
+        let l = line.to_string();
+        let got = panic::catch_unwind(move || Request::parse_method_and_request_uri_and_http_version_string(&l));
+        let want = line_ok(line);
+        match got {
+            Err(_) => Some("panic".into()),
+            Ok(Ok(t)) => if Some(t.clone()) != want { Some(format!("accepted as {:?}, expected {:?}", t, want)) } else { None },
+            Ok(Err(_)) => if want.is_some() { Some(format!("rejected, expected {:?}", want)) } else { None },
+        }
+    }
+    pub fn lines() -> Vec<String> {
+        let mut v = vec![];
+        for m in ["GET", "get", "Post", "BREW", "", "OPTIONS"] { for u in ["/", "/a b", "", "*", "/x?y=1"] { for ver in ["HTTP/1.1", "http/1.0", "HTTP/3.0", "", "HTTP/1.1 x", " HTTP/1.1", "HTTP/1.1 "] {
+            v.push(format!("{} {} {}", m, u, ver)); v.push(format!("{} {}  {}", m, u, ver)); v.push(format!("{} {}\t{}", m, u, ver)); v.push(format!("  {} {} {}\r\n", m, u, ver));
+        } } }
+        v.push("GET /".into()); v.push("GET".into()); v.push("".into()); v.push("GET / HTTP/1.1 extra".into());
+        v
+    }
+    pub fn check_lookup(i: u64) -> Option<String> {
+        let mut rng = Rng(i.wrapping_mul(7919) | 1);
+        let names = ["Host", "host", "HOST", "X-A", "x-a", "Origin", "oRiGiN", "Range"];
+        let n = rng.below(6) as usize;
+        let headers: Vec<Header> = (0..n).map(|k| Header { name: names[rng.below(8) as usize].into(), value: format!("v{}", k) }).collect();
+        let r = Request { method: "GET".into(), request_uri: "/".into(), http_version: "HTTP/1.1".into(), headers: headers.clone(), body: vec![] };
+        for q in names {
+            let want = headers.iter().find(|h| h.name.to_lowercase() == q.to_lowercase()).map(|h| h.value.clone());
+            let got = r.get_header(q.to_string()).map(|h| h.value.clone());
+            if got != want { return Some(format!("headers {:?} lookup {:?}: got {:?} expected {:?}", headers.iter().map(|h| &h.name).collect::<Vec<_>>(), q, got, want)); }
+        }
+        None
+    }
+    pub fn gen(i: u64) -> Request {
+        let mut rng = Rng(i.wrapping_mul(104729) | 1);
+        let n = rng.below(6) as usize;
+        let vals = ["v", "a: b", "x=y; z", "", " lead", "trail ", "a: b: c", "tab\tin", "ünï"];
+        let names = ["Host", "X-A", "Cookie", "Content-Length", "Accept", "X:Y"];
+        let headers = (0..n).map(|_| Header { name: names[rng.below(6) as usize].into(), value: vals[rng.below(9) as usize].into() }).collect();
+        let bl = rng.below(40) as usize;
+        let body: Vec<u8> = (0..bl).map(|_| [b'a', b'\r', b'\n', 0u8, 0xff, 0x89, b':', b' '][rng.below(8) as usize]).collect();
+        Request { method: METHODS[rng.below(9) as usize].into(), request_uri: ["/", "/a/b?c=d", "*", "/x#f"][rng.below(4) as usize].into(),
+                  http_version: VERSIONS[rng.below(4) as usize].into(), headers, body }
+    }
+    pub fn check_roundtrip(i: u64) -> Option<String> {
+        let r = gen(i);
+        let bytes = r.generate();
+        let got = panic::catch_unwind(move || Request::parse(&bytes));
+        match got {
+            Err(_) => Some("panic".into()),
+            Ok(Err(e)) => Some(format!("parse(generate(r)) = Err({}) for {:?}", e, r)),
+            Ok(Ok(p)) => if p != r { Some(format!("parse(generate(r)) = {:?} for r = {:?}", p, r)) } else { None },
+        }
+    }
+    pub fn search(seed: u64) -> bool {
+        let mut h = Hits::new();
+        for (i, l) in lines().iter().enumerate() { if let Some(o) = check_line(l) { h.hit("request", "request_line", "Request::parse_method_and_request_uri_and_http_version_string", &i.to_string(), &format!("{:?} :: {}", l, o)); } }
+        for i in 0..400u64 { if let Some(o) = check_lookup(seed + i) { h.hit("request", "lookup", "Request::get_header", &(seed + i).to_string(), &o); break; } }
+        for i in 0..600u64 { if let Some(o) = check_roundtrip(seed + i) { h.hit("request", "roundtrip", "Request::parse", &(seed + i).to_string(), &o); break; } }
+        h.n > 0
+    }
+    pub fn replay(case: &str, input: &str) -> bool {
+        let o = match case {
+            "request_line" => check_line(&lines()[input.parse::<usize>().unwrap()]),
+            "lookup" => check_lookup(input.parse().unwrap()),
+            "roundtrip" => check_roundtrip(input.parse().unwrap()),
+            _ => None,
+        };
+        if let Some(o) = o { report("request", case, "", input, &o); true } else { false }
+    }
+}
+
 pub fn dispatch(args: &[String]) -> i32 {
     panic::set_hook(Box::new(|_| {}));
     if args.len() < 2 { eprintln!("usage: falsify search <routine> <seed> | replay <routine> <case> <input>"); return 2; }
@@ -398,6 +637,10 @@ pub fn dispatch(args: &[String]) -> i32 {
         ("replay", "response") => resp::replay(&args[2], &args[3]),
         ("search", "cors") => cors::search(1),
         ("replay", "cors") => cors::replay(&args[2], &args[3]),
+        ("search", "e2e") => e2e::search(1),
+        ("replay", "e2e") => e2e::replay(&args[2], &args[3]),
+        ("search", "request") => req::search(args.get(2).and_then(|s| s.parse().ok()).unwrap_or(1)),
+        ("replay", "request") => req::replay(&args[2], &args[3]),
         ("search", "range") => rng::search(args.get(2).and_then(|s| s.parse().ok()).unwrap_or(1)),
         ("replay", "range") => rng::replay(&args[2], &args[3]),
         _ => { eprintln!("unknown routine"); return 2; }
